@@ -1,31 +1,122 @@
-"""Per-property configuration: which proof targets and which bounded drivers decide it."""
+"""Per-property configuration: proof targets (vlib/vc/contracts_all.TARGETS), bounded drivers, claimed level."""
+
+PROOF_TECH = ('contract-based deductive verification: verification conditions generated from the real Python AST of /repo '
+              'against sidecar contracts (WF invariant, ghost denotation families), discharged by z3 (cvc5 / z3-CLI fall-backs)')
+BOUNDED_TECH = 'run-time contracts on the real code over a stated bound (bounded stand-in, never counted as proved)'
+COMMON_TB = ['Python semantics assumed by the encoding (DESIGN.md section 3; listed in evidence trusted_base)',
+             'meaning of the ghost maps (sem = evaluation, canonicity, quantifier closure, essential variables, reachability): '
+             'Lean lemmas lean/BddTheory.lean (L-UNIQ, L-CANON, L-QUANT, L-ESS, L-REACH); correspondence Lean <-> SMT definitions by inspection']
+
+
+def P(level, expl, proof=True, bounded=(), tb=(), technique=None, design_ref=''):
+    return dict(level=level, explanation=expl, proof=proof, bounded=list(bounded), trusted_base=list(tb) + COMMON_TB,
+                assumptions=[], technique=technique or (PROOF_TECH + '; ' + BOUNDED_TECH if proof else BOUNDED_TECH),
+                design_ref=design_ref)
+
 
 PROPS = {
-    'C01': dict(
-        level='proof',
-        proof=None,
-        bounded=['vlib.rtc.c01'],
-        explanation='placeholder',
-        trusted_base=[],
-        assumptions=[],
-    ),
-    'C02': dict(level='other', proof=None, bounded=['vlib.rtc.c02'], explanation='placeholder', trusted_base=[], assumptions=[]),
-    'C03': dict(level='proof', proof=None, bounded=['vlib.rtc.c03'], explanation='placeholder', trusted_base=[], assumptions=[]),
-    'C04': dict(level='proof', proof=None, bounded=['vlib.rtc.c04'], explanation='placeholder', trusted_base=[], assumptions=[]),
-    'C05': dict(level='other', proof=None, bounded=['vlib.rtc.c05'], explanation='placeholder', trusted_base=[], assumptions=[]),
-    'C06': dict(level='other', proof=None, bounded=['vlib.rtc.c06'], explanation='placeholder', trusted_base=[], assumptions=[]),
-    'C07': dict(level='exploration', proof=None, bounded=['vlib.rtc.c07'], explanation='placeholder', trusted_base=[], assumptions=[]),
-    'C08': dict(level='other', proof=None, bounded=['vlib.rtc.c08'], explanation='placeholder', trusted_base=[], assumptions=[]),
-    'C09': dict(level='other', proof=None, bounded=['vlib.rtc.c09'], explanation='placeholder', trusted_base=[], assumptions=[]),
-    'C10': dict(level='exploration', proof=None, bounded=['vlib.rtc.c10'], explanation='placeholder', trusted_base=[], assumptions=[]),
-    'C11': dict(level='proof', proof=None, bounded=['vlib.rtc.c11'], explanation='placeholder', trusted_base=[], assumptions=[]),
-    'C12': dict(level='exploration', proof=None, bounded=['vlib.rtc.c12'], explanation='placeholder', trusted_base=[], assumptions=[]),
-    'C13': dict(level='exploration', proof=None, bounded=['vlib.rtc.c13'], explanation='placeholder', trusted_base=[], assumptions=[]),
-    'C14': dict(level='other', proof=None, bounded=['vlib.rtc.c14'], explanation='placeholder', trusted_base=[], assumptions=[]),
-    'C15': dict(level='exploration', proof=None, bounded=['vlib.rtc.c15'], explanation='placeholder', trusted_base=[], assumptions=[]),
-    'C16': dict(level='exploration', proof=None, bounded=['vlib.rtc.c16'], explanation='placeholder', trusted_base=[], assumptions=[]),
-    'C17': dict(level='other', proof=None, bounded=['vlib.rtc.c17'], explanation='placeholder', trusted_base=[], assumptions=[]),
-    'C18': dict(level='other', proof=None, bounded=['vlib.rtc.c18'], explanation='placeholder', trusted_base=[], assumptions=[]),
+    'C01': P('proof',
+             'Every alias accepted by BDD.apply (27 spellings read from dd/_abc.py), BDD.ite/_ite, _top_cofactor and find_or_add are '
+             'proved against contracts whose postcondition is the truth function named in the property, for an arbitrary assignment, '
+             'an arbitrary WF manager state (= any history of WF-preserving operations) and an arbitrary variable order; obligations are '
+             'regenerated from the current source on every run. Proved under "no reordering fires inside the call" (nested or requests '
+             'off); behaviour when dynamic reordering fires is C09 (control proved, denotation bounded). Function operators and the '
+             'history quantifier over swap/undeclare/loaders are covered by the bounded stand-in (all 256^2 pairs x every connective class).',
+             bounded=['vlib.rtc.c01'],
+             tb=['WF preservation by swap, undeclare_vars and the loaders is assumed (bounded-checked by C02/C07/C12/C14)',
+                 'dd.autoref Function operators: bounded only'], design_ref='DESIGN.md 7/C01'),
+    'C02': P('other',
+             'Second sentence of the property (reduced, ordered, regular high edges, unique table) is the invariant WF; its preservation is '
+             'proved for find_or_add, _ite, add_var/_init_terminal/declare, incref/decref, var (every clause W1-W9 re-established on every '
+             'path). "Equal references iff equal functions" is WF + lemma L-CANON (Lean). swap, undeclare_vars, collect_garbage and the '
+             'loaders rewrite tables wholesale and are decided by the bounded stand-in (five construction routes must agree for every function '
+             'of <= 3 variables under every order; wf() after every step of histories). Category "other": mixed proof + bounded.',
+             bounded=['vlib.rtc.c02'], tb=['swap, undeclare_vars, collect_garbage, pickle/JSON loaders: bounded only'],
+             design_ref='DESIGN.md 7/C02'),
+    'C03': P('proof',
+             '_quantify is proved against the ghost family QE(Q, A) (existential/universal closure maps maintained at node creation): '
+             'result denotes QEx/QFa of the operand for an arbitrary assignment, quantified set, order and WF state, memo validity '
+             'included; the quantifier aliases of apply are proved to delegate with the right roles (variables = support of first operand, '
+             'body = second). That QEx/QFa are the OR/AND over the quantified variables and independent of them is lemma L-QUANT (Lean). '
+             'quantify/exist/forall wrappers, name->level translation and sorted() are assumed and bounded-checked (all functions of 3 '
+             'variables x all subsets x both quantifiers x orders).',
+             bounded=['vlib.rtc.c03'], tb=['BDD._map_to_level, BDD.support, sorted(): assumed contracts (bounded-checked)',
+                                         'BDD.quantify body / forall / exist wrappers: bounded only'], design_ref='DESIGN.md 7/C03'),
+    'C04': P('proof',
+             'The three substitution recursions and renaming are proved: _cofactor (A2 = A overridden by the constants), _compose '
+             '(A2/A3 = A with the level set/cleared, result = ite of the replacement), _vector_compose (A2[l] = value of the replacement '
+             'under the ORIGINAL assignment: simultaneity), _copy_bdd with old_bdd is bdd + rename (A2 = A after the name map, any map). '
+             'Operand unchanged = frame Ext. The dispatch in BDD.let / compose / cofactor entry points is bounded-checked.',
+             bounded=['vlib.rtc.c04'], tb=['BDD.let, BDD.cofactor, BDD.compose entry points (isinstance dispatch, comprehension): bounded only',
+                                         'comprehension idiom {level_of(x): ... for x in names} modelled through the W8 bijection'],
+             design_ref='DESIGN.md 7/C04'),
+    'C05': P('other',
+             'The parse is performed by PLY\'s generated LALR automaton from grammar docstrings and a precedence table; no contract can be '
+             'attached to that automaton, so precedence/associativity are not provable with this technique. Decided by the bounded '
+             'stand-in: an independent precedence-climbing reader written from doc.md evaluates every generated formula on truth tables '
+             '(all operator pairs/triples, binders, comments, @n, constants, two managers with failing parses, to_expr round trips).',
+             proof=False, bounded=['vlib.rtc.c05'], tb=['PLY LALR engine and generated tables: outside any contract'],
+             design_ref='DESIGN.md 7/C05'),
+    'C06': P('other',
+             'The count invariant RC (ref = stored in-edges + external references, ghost in-degree updated by the engine at node creation) '
+             'is proved for incref, decref, ref and find_or_add on every path. collect_garbage and swap (closures, set.pop loop, in-place '
+             'rewrites) are outside the generator and decided by the bounded stand-in: exact ledger, wf(), computed-table validity and '
+             'denotations after every step of random and enumerated histories; after each full collection stored nodes == reachable from '
+             'held. "Exactly the reachable remain" additionally uses lemma L-REACH (Lean).',
+             bounded=['vlib.rtc.c06'], tb=['collect_garbage, swap: bounded only'], design_ref='DESIGN.md 7/C06'),
+    'C07': P('exploration',
+             'BDD.swap rewrites two levels in place through temporarily inconsistent tables (five loops over dict views): outside the VC '
+             'generator. Decided by run-time contracts: every function of 3 variables and sampled sets over 4-6 variables under every '
+             'adjacent swap, sifting, reorder-to-order, reorder_to_pairs, reordering off and on, 8 hash seeds (thorough).',
+             proof=False, bounded=['vlib.rtc.c07'], design_ref='DESIGN.md 7/C07'),
+    'C08': P('other',
+             'Per-node count = in-edges + live Function objects is checked by run-time contracts over random and enumerated dd.autoref '
+             'histories (handles from every route, drops in any order, collections, reorderings, dynamic reordering on/off) with a final '
+             'all-dropped check (only the terminal left, BDD.__del__ passes). The manager-level half (RC invariant of find_or_add, '
+             'incref/decref) is proved under C06. CPython runs __del__ exactly once per handle: assumed.',
+             proof=False, bounded=['vlib.rtc.c08'], tb=['CPython finaliser semantics'], design_ref='DESIGN.md 7/C08'),
+    'C09': P('other',
+             'Proved: _request_reordering raises the signal only when requests are enabled, state unchanged; every contract under C01-C04 '
+             'carries a raises-clause (the signal propagates only if requests are enabled, with WF and Ext kept) and decorated calls are '
+             'composed with the wrapper schema (ctx restored, reordering still enabled). Decided by the bounded stand-in: the request is '
+             'fired at every k-th node creation of every public operation (dd.bdd with referenced operands, dd.autoref) and compared '
+             'with the truth-table oracle.',
+             bounded=['vlib.rtc.c09'], tb=['reorder()/swap contract assumed (C07 bounded)'], design_ref='DESIGN.md 7/C09'),
+    'C10': P('exploration',
+             'Model counting (2**gap arithmetic), generator pipelines (pick_iter/_sat_iter) and the support traversal are outside the '
+             'generator. is_essential is proved against ghost family HASLVL (a node at the variable\'s level is reachable; = "depends on" '
+             'by lemma L-ESS). Everything else: run-time contracts, all functions of 3 variables with 0-2 unused variables, all orders.',
+             bounded=['vlib.rtc.c10'], design_ref='DESIGN.md 7/C10'),
+    'C11': P('proof',
+             'dd.bdd._copy_bdd with two distinct managers, copy_bdd and BDD.copy are proved: result in the target denotes the source function '
+             'by variable name (A2 = A after the level map built from names), whatever the two orders; target WF and Ext (existing content '
+             'untouched), source not in modifies (untouched), reordering setting restored. dd._copy (generic Function protocol) and '
+             'copy_vars are bounded-checked.',
+             bounded=['vlib.rtc.c11'], tb=['dd._copy.copy_bdd / copy_bdds_from / copy_vars: bounded only'], design_ref='DESIGN.md 7/C11'),
+    'C12': P('exploration', 'File I/O through pickle/json/shelve: outside any contract. Run-time contracts over generated round trips.',
+             proof=False, bounded=['vlib.rtc.c12'], design_ref='DESIGN.md 7/C12'),
+    'C13': P('exploration', 'Relational product against the truth-table composition under the documented preconditions; exhaustive for one pair.',
+             proof=False, bounded=['vlib.rtc.c13'], design_ref='DESIGN.md 7/C13'),
+    'C14': P('other',
+             'Proved: add_var (idempotent for existing names, next bottom level by default, ValueError iff conflict with state unchanged, '
+             'all functions and the WF invariant kept), _check_var, _next_free_level, _init_terminal, declare (loop invariant), '
+             'var_at_level / level_of_var / var_levels as views of one bijection (W8), var. Precondition level <= len(vars): a larger '
+             'explicit level leaves a gap (known finding D4). undeclare_vars (comprehensions rebuilding three tables) is bounded-checked.',
+             bounded=['vlib.rtc.c14'], tb=['undeclare_vars: bounded only'], design_ref='DESIGN.md 7/C14'),
+    'C15': P('exploration', 'Variadic MDD code and bdd_to_mdd: outside the generator. Run-time contracts over generated conversions and MDD histories.',
+             proof=False, bounded=['vlib.rtc.c15'], design_ref='DESIGN.md 7/C15'),
+    'C16': P('exploration', 'Text parsing through PLY and line splitting. Run-time contracts over generated DDDMP files.',
+             proof=False, bounded=['vlib.rtc.c16'], design_ref='DESIGN.md 7/C16'),
+    'C17': P('other',
+             'Proved: the exceptional postconditions of find_or_add, apply (unknown operator, wrong arity, unknown node, per alias class), '
+             'add_var, _check_var, _next_free_level, var, var_at_level, level_of_var, rename: raised iff the stated condition, state '
+             'unchanged. Everything else (syntax errors, files, reorder with a bad order, undeclare in use, autoref) by fault injection: '
+             '47 kinds of rejected call after every step of histories, then continued use.',
+             bounded=['vlib.rtc.c17'], design_ref='DESIGN.md 7/C17'),
+    'C18': P('other',
+             'BDD.succ is proved to return the stored fork (W9 read back gives u == negated(ite(var, high, low))). Function properties, '
+             'descendants, sizes, to_nx and DOT exports are checked by run-time contracts (graph exports parsed back and evaluated).',
+             bounded=['vlib.rtc.c18'], design_ref='DESIGN.md 7/C18'),
 }
 
 NOTES = ('Technique family: contract-based deductive verification of the real code. Proof obligations are generated '
